@@ -202,7 +202,9 @@ func (r restClientProtocol) prepareUnmarshalledRequestFromBody(op *operation, sr
 		fields := msg.Descriptor().Fields()
 		contentType := op.reqContentType
 		msg.Set(fields.ByName("content_type"), protoreflect.ValueOfString(contentType))
-		msg.Set(fields.ByName("data"), protoreflect.ValueOfBytes(src))
+		// src is the content of a pooled buffer that will be released while
+		// the message is still in use: the message needs bytes of its own.
+		msg.Set(fields.ByName("data"), protoreflect.ValueOfBytes(bytes.Clone(src)))
 		return nil
 	}
 
@@ -394,7 +396,9 @@ func (r restServerProtocol) prepareUnmarshalledResponse(op *operation, src []byt
 		fields := msg.Descriptor().Fields()
 		contentType := op.rspContentType
 		msg.Set(fields.ByName("content_type"), protoreflect.ValueOfString(contentType))
-		msg.Set(fields.ByName("data"), protoreflect.ValueOfBytes(src))
+		// src is the content of a pooled buffer that will be released while
+		// the message is still in use: the message needs bytes of its own.
+		msg.Set(fields.ByName("data"), protoreflect.ValueOfBytes(bytes.Clone(src)))
 		return nil
 	}
 	if leafField == nil {
